@@ -192,6 +192,12 @@ def check(ctx):
     import core, c06
     n = core.adopt(ctx, c06, lambda o: o["rule"] == "C06.f", "C14.e")
     ctx.notes.append("C14.e adopts %d entry-deletion obligations (C06.f)" % n)
+    # ---- C14.f every trigger issued is delivered: the reaction command reaches the runner exactly once on every path, and
+    #      every postponed delivery is replayed (shared with C02.d / C02.c) - "any number of calls per system run" ----
+    import c02
+    nf = core.adopt(ctx, c02, lambda o: (o["rule"] == "C02.d" and "one-runner-call-per-path" in o["key"])
+                    or (o["rule"] == "C02.c" and ("::replay:" in o["key"] or "replay-present" in o["key"])), "C14.f")
+    ctx.floor("C14.f", nf, 8, "shared delivery obligations (C02.c/d)")
 
 
 def _is_entity_scheduler(prog, fr):
